@@ -68,6 +68,11 @@ int main(int argc, char **argv){
     src.loadNeededValues(model.values(src.getNeededPoints(), d));
     if (history == 1){ if (src.isLocalPolynomial() || src.isWavelet()) src.setSurplusRefinement(0.0, refine_classic, -1, g.ll); else src.setAnisotropicRefinement(type_iptotal, 2, 0, g.ll); }
   }
+  if (how != 0){ // a grid assigned / copied onto itself is its own source: nothing may change (full output range)
+    Obs before = observe(src, probe); TasmanianSparseGrid &alias = src;
+    if (how == 1) src = alias; else if (how == 2) src.copyGrid(alias); else src.copyGrid(alias, 0, outs);
+    unchanged(observe(src, probe), before, "grid assigned / copied onto itself (self-copy)");
+  }
   TasmanianSparseGrid assigned;
   TasmanianSparseGrid *copy = nullptr; std::unique_ptr<TasmanianSparseGrid> holder;
   if (how == 0){ holder.reset(new TasmanianSparseGrid(src)); copy = holder.get(); }
